@@ -983,6 +983,41 @@ def check_value(run, S, name, expected, rule='K3 ring conformance', post=None, a
     return ok
 
 
+def order_facts(S, cv, guards):
+    """what the guards of a path establish about order: [(G, rels)] meaning  G REL 0  for some REL in rels
+    (rels within 'lt','le','eq','ge','gt','un'; 'un' = unordered, a NaN operand), for if-form comparisons and for
+    match-on-partial_cmp"""
+    NEG = {'gt': {'le', 'un'}, 'ge': {'lt', 'un'}, 'lt': {'ge', 'un'}, 'le': {'gt', 'un'}}
+    out = []
+    for kind, tid, want in guards:
+        t = S.terms[tid]
+        if kind == 'switch' and t[0] == 'a' and t[1] == 'cmp' and len(t[2]) == 2 and want in (0, 1, 2, 3):
+            out.append((cv.el(t[2][0]) - cv.el(t[2][1]), {{0: 'lt', 1: 'eq', 2: 'gt', 3: 'un'}[want]}))
+        elif kind == 'ite':
+            g_ = parse_guard(S, cv, tid)
+            if g_['kind'] in NEG:
+                truth = want != g_['neg']
+                out.append((g_['a'] - g_['b'], {g_['kind']} if truth else set(NEG[g_['kind']])))
+    return out
+
+
+def sign_established(facts, N):
+    """does the path establish N >= 0 (+1), N <= 0 (-1), only through NaN ('nan'), or nothing (None)?"""
+    for G, rels in facts:
+        for k in (1, -1):
+            if A.eq(N, G * k):
+                real = rels - {'un'}
+                if not real:
+                    return 'nan'
+                if k == -1:
+                    real = {{'lt': 'gt', 'le': 'ge', 'gt': 'lt', 'ge': 'le', 'eq': 'eq'}[x] for x in real}
+                if real <= {'gt', 'ge', 'eq'}:
+                    return 1
+                if real <= {'lt', 'le', 'eq'}:
+                    return -1
+    return None
+
+
 def eq_tests(S, cv, kind, tid, want):
     """what a guard establishes about exact equality: [(a - b, True/False, text)] for `a == b` / `a != b` tests (if-form)
     and for `a.partial_cmp(&b)` (match-form: Equal -> True; Less, Greater, unordered -> False)"""
